@@ -834,6 +834,8 @@ class Frame(object):
             raise LiftError('AttributeError', "instruction info has no attribute '%s'" % a, n)
         if isinstance(v, (list, dict, str, tuple)):
             return BoundMethod(v, a)
+        if isinstance(v, int) and not isinstance(v, bool) and a in ('bit_length', 'bit_count'):
+            return BoundMethod(v, a)
         if isinstance(v, Ctor):
             return Ctor(v.name + '.' + a)
         if hasattr(v, '_attrs') or type(v).__name__ == 'Obj':
@@ -1093,6 +1095,8 @@ class BoundMethod(object):
         if isinstance(o, str):
             if m in ('startswith', 'endswith', 'lower', 'upper', 'join', 'format'):
                 return getattr(o, m)(*args)
+        if isinstance(o, int) and m in ('bit_length', 'bit_count') and not args:
+            return getattr(o, m)()
         raise LiftUnknown('method %s on %r' % (m, type(o).__name__))
 
 
